@@ -151,6 +151,25 @@ def step (_ : Unit) (line : String) : Unit × String :=
         | none => "bad:C15:C15:unparsable-result"
       ((), m ++ " ||| " ++ v)
     | _, _ => ((), "bad-op")
+  | ["mglob", mb, mo] =>
+    match mb.toNat?, mo.toNat? with
+    | some b, some o =>
+      if b > 63 || o > 63 then ((), "bad-op") else
+      -- the project-level sections of two files; bit k of a mask: that file mentions key k. A key the
+      -- later file mentions takes its value, a key only the earlier one mentions keeps the earlier
+      -- value; environment and vars are merged by key; every process of either file is kept.
+      let has (m k : Nat) : Bool := (m / k) % 2 == 1
+      let pick (k : Nat) (vb vo : String) : String := if has o k then vo else if has b k then vb else "-"
+      let env :=
+        if !(has b 16) && !(has o 16) then "-" else
+        ",".intercalate ((if has b 16 then ["BB=1"] else []) ++ [if has o 16 then "G=O" else "G=B"] ++ (if has o 16 then ["OO=1"] else []))
+      let vars :=
+        if !(has b 32) && !(has o 32) then "-" else
+        ",".intercalate ((if has b 32 then ["b:1"] else []) ++ (if has o 32 then ["o:1"] else []) ++ [if has o 32 then "v:O" else "v:B"])
+      let one := s!"sc={pick 1 "sh" "bash"};sa={pick 2 "-c" "-ec"};ln={pick 4 "111" "222"};ve={pick 8 "vB" "vO"};en={env};va={vars};procs=pB,pO"
+      let m := s!"two:{one} ext:{one}"
+      ((), m ++ " ||| " ++ (if impl == m then "ok" else "bad:C15:C15:project-level-setting-lost-or-override-ignored (a setting of the earlier file that the later file does not mention must survive, one it mentions must win): want " ++ m))
+    | _, _ => ((), "bad-op")
   | ["mfiles", b, o] =>
     match parseProj b, parseProj o with
     | some b, some o =>
